@@ -1281,7 +1281,7 @@ pub fn generate(id: &str, tier: &str, r: u64, rng: &mut Rng) -> Value {
     sc["check"] = json!(id);
     sc["tier"] = json!(tier);
     if sc.get("clock0").is_none() {
-        sc["clock0"] = json!((1_500_000_000_000u64 + rng.below(1 << 38)).to_string());
+        sc["clock0"] = json!((1_500_000_000_000u64 + rng.below(1 << 39)).to_string());
     }
     sc
 }
@@ -1754,7 +1754,7 @@ pub fn generate_family(family: &str, id: &str, tier: &str, rng: &mut Rng) -> Val
     sc["engine"] = json!("sysim");
     sc["family"] = json!(family);
     if sc.get("clock0").is_none() {
-        sc["clock0"] = json!((1_500_000_000_000u64 + rng.below(1 << 38)).to_string());
+        sc["clock0"] = json!((1_500_000_000_000u64 + rng.below(1 << 39)).to_string());
     }
     sc
 }
